@@ -37,6 +37,8 @@ def cases(tier, seed):
         if pw > avw and c["max_burst"] < pw // avw:
             c["max_burst"] = pw // avw
         c["long_bursts"] = bool(k % 2)
+        # address step between the beats of a burst (constructor parameter, default 1); on the equal / down-converting paths only
+        c["burst_increment"] = r.choice([1, 1, 1, 2, 4]) if avw >= pw else 1
         c["name"] = "%04d-av%d-p%d-b%d-%s-%s%s" % (k, avw, pw, c["max_burst"], c["cls"], c["gaps"], "-long" if c["long_bursts"] else "")
         c["cost"] = c["nacc"] * 4
         out.append(c)
@@ -75,14 +77,16 @@ def run_case(c):
         def __init__(self):
             self.av = AvalonMMInterface(data_width=avw, adr_width=30)
             self.port = LiteDRAMNativePort("both", aw_port, pw)
-            self.submodules.bridge = LiteDRAMAvalonMM2Native(self.av, self.port, max_burst_length=c["max_burst"], base_address=c["base"])
+            self.submodules.bridge = LiteDRAMAvalonMM2Native(self.av, self.port, max_burst_length=c["max_burst"], base_address=c["base"],
+                                                             burst_increment=c.get("burst_increment", 1))
 
     if c.get("core"):
         from ..corebackend import CoreBackend
         stub = CoreBackend(1, databits=pw, refresh=c["refresh"], cmd_buffer_depth=c["cmd_buffer_depth"])
         dut = stub.dut
         dut.av = AvalonMMInterface(data_width=avw, adr_width=30)
-        dut.submodules.bridge = LiteDRAMAvalonMM2Native(dut.av, stub.ports[0], max_burst_length=c["max_burst"], base_address=c["base"])
+        dut.submodules.bridge = LiteDRAMAvalonMM2Native(dut.av, stub.ports[0], max_burst_length=c["max_burst"], base_address=c["base"],
+                                                             burst_increment=c.get("burst_increment", 1))
         store = stub.store
         mem_procs = stub.processes()
         aw_port = stub.ports[0].address_width
@@ -92,6 +96,7 @@ def run_case(c):
         stub = CoreStub([dut.port], store, r, cmd_ready_prob=c["cmd_ready_prob"], extra_lat=tuple(c["extra_lat"]), long_stall=c["long_stall"])
         mem_procs = [stub.process()]
     av = dut.av
+    inc = c.get("burst_increment", 1)
     off = c["base"] // avb
     span = 1 << (aw_port + (pb.bit_length() - 1) - (avb.bit_length() - 1) - 1)
     hot = [r.randrange(span - 64) for _ in range(4)]
@@ -167,7 +172,7 @@ def run_case(c):
                     res["beats_w"] += 1
                     for i in range(avb):
                         if (be >> i) & 1:
-                            model[(start + bi) * avb + i] = (d >> (8 * i)) & 0xFF
+                            model[(start + bi * inc) * avb + i] = (d >> (8 * i)) & 0xFF
                 yield av.write.eq(0)
                 res["done"] += 1
             else:
@@ -186,7 +191,7 @@ def run_case(c):
                     yield
                 # expected data is fixed at command acceptance (no later write can be accepted before the data is back,
                 # and earlier writes were accepted before)
-                exp = [[rd_model((start + bi) * avb + i) for i in range(avb)] for bi in range(n)]
+                exp = [[rd_model((start + bi * inc) * avb + i) for i in range(avb)] for bi in range(n)]
                 state["expect"].append(dict(start=start, n=n, exp=exp, access=k))
                 yield av.read.eq(0)
                 # wait for all beats of this read (this front-end does not accept a new command before)
